@@ -158,5 +158,5 @@ func c05SndStreamsCase(r *Rng, cl string) Case {
 			fmt.Sprintf("pkt seq=1 ssrc=%d ext=2", media), fmt.Sprintf("pkt seq=1 ssrc=%d ext=0 x=1", media)),
 			"adv us=100000")
 	}
-	return Case{Class: cl, Ops: ops}
+	return Case{Class: cl, Ops: c05Ambient(r, ops)}
 }
